@@ -22,6 +22,8 @@ func init() {
 		c09ConnWritesLocked(c)
 		timerNilSafe(c, "C09.3a")
 		c09DecodedPointers(c)
+		c09NilContradiction(c)
+		c09CloseOnce(c)
 		c09EventSignatures(c)
 		answerOrPark(c, "C09.5", false)
 		c09OnRequestImplementations(c, "C09.5b")
@@ -735,4 +737,223 @@ func c09UncheckedAssertions(c *core.Ctx) {
 	}
 	c.Need(R, "unchecked type assertions examined", n, 8)
 	c.Need(R, "of which listener arguments (C09.4)", listenerArgs, 5)
+}
+
+// c09NilContradiction — C09.3c: a value that the code itself tests against nil
+// is dereferenced where the test has just established that it IS nil
+// (Engler's contradiction rule: the test states the belief that nil is
+// possible, the dereference on the nil edge contradicts it).
+func c09NilContradiction(c *core.Ctx) {
+	const R = "C09.3c"
+	c.Rule(R, "nil-test contradiction: in engine, transports, types, utils, webtransport, no pointer / interface / func value that a condition compares with nil is dereferenced (field through a pointer, method on an interface, call of a func value, *p) on the edge — or in the short-circuit operand — where that comparison has established it is nil, unless it is re-assigned first; a negated or inverted nil guard (`x == nil` for `x != nil`, `||` for `&&`) is a nil-pointer panic on a handler or reader goroutine")
+	pkgs := map[string]bool{"engine": true, "transports": true, "types": true, "utils": true, "webtransport": true, "events": true}
+	nTests := 0
+	for _, u := range c.P.Units {
+		if u.Pkg == nil || u.Pkg.Types == nil || !pkgs[u.Pkg.Types.Name()] {
+			continue
+		}
+		info := u.Info()
+		// nilPath: e is `P == nil` / `P != nil` with P a stable path of pointer, interface or func type; returns the path and whether the atom being true means "P is nil"
+		nilAtom := func(e ast.Expr) (string, bool, bool) {
+			be, ok := ast.Unparen(e).(*ast.BinaryExpr)
+			if !ok || (be.Op != token.EQL && be.Op != token.NEQ) {
+				return "", false, false
+			}
+			x := be.X
+			if core.IsNil(info, be.X) {
+				x = be.Y
+			} else if !core.IsNil(info, be.Y) {
+				return "", false, false
+			}
+			p := selPath(x)
+			if strings.ContainsAny(p, "?(*") {
+				return "", false, false
+			}
+			switch t := info.TypeOf(x); t.Underlying().(type) {
+			case *types.Pointer, *types.Interface, *types.Signature:
+			default:
+				return "", false, false
+			}
+			return p, be.Op == token.EQL, true
+		}
+		// derefs of path p inside node n (own body only)
+		derefs := func(n ast.Node, p string) []ast.Node {
+			var out []ast.Node
+			ast.Inspect(n, func(x ast.Node) bool {
+				switch s := x.(type) {
+				case *ast.FuncLit:
+					return false
+				case *ast.SelectorExpr:
+					if selPath(s.X) != p {
+						return true
+					}
+					sel := info.Selections[s]
+					if sel == nil {
+						return true
+					}
+					switch info.TypeOf(s.X).Underlying().(type) {
+					case *types.Pointer:
+						if sel.Kind() == types.FieldVal {
+							out = append(out, s)
+						}
+					case *types.Interface:
+						if sel.Kind() == types.MethodVal {
+							out = append(out, s)
+						}
+					}
+				case *ast.StarExpr:
+					if selPath(s.X) == p {
+						out = append(out, s)
+					}
+				case *ast.CallExpr:
+					if selPath(s.Fun) == p {
+						if _, isSig := info.TypeOf(s.Fun).Underlying().(*types.Signature); isSig {
+							if _, isFn := core.ObjOf(info, s.Fun).(*types.Func); !isFn {
+								out = append(out, s)
+							}
+						}
+					}
+				}
+				return true
+			})
+			return out
+		}
+		assigned := func(n ast.Node, p string) bool {
+			hit := false
+			ast.Inspect(n, func(x ast.Node) bool {
+				if as, ok := x.(*ast.AssignStmt); ok {
+					for _, l := range as.Lhs {
+						if lp := selPath(l); lp == p || strings.HasPrefix(p, lp+".") {
+							hit = true
+						}
+					}
+				}
+				return true
+			})
+			return hit
+		}
+		// (a) short-circuit operands inside one condition
+		var walkCond func(e ast.Expr, nils map[string]bool)
+		walkCond = func(e ast.Expr, nils map[string]bool) {
+			e = ast.Unparen(e)
+			if be, ok := e.(*ast.BinaryExpr); ok && (be.Op == token.LAND || be.Op == token.LOR) {
+				walkCond(be.X, nils)
+				n2 := map[string]bool{}
+				for k := range nils {
+					n2[k] = true
+				}
+				for _, a := range core.SplitCond(be.X, be.Op == token.LAND) {
+					if p, eqNil, ok := nilAtom(a.E); ok && eqNil == a.Val {
+						n2[p] = true
+					}
+				}
+				walkCond(be.Y, n2)
+				return
+			}
+			if ue, ok := e.(*ast.UnaryExpr); ok && ue.Op == token.NOT {
+				walkCond(ue.X, nils)
+				return
+			}
+			for p := range nils {
+				for _, d := range derefs(e, p) {
+					c.Violate(R, keyf("%s/deref(%s)-in-short-circuit-operand", u.Key, p), d.Pos(), keyf("%s is dereferenced in the operand that is evaluated exactly when %s is nil", p, p))
+				}
+			}
+		}
+		g := u.Graph()
+		for _, br := range g.Branches() {
+			if !br.IsCase {
+				walkCond(br.Cond, map[string]bool{})
+			}
+		}
+		// (b) nodes dominated by the edge that establishes "P is nil"
+		for _, f := range g.Facts() {
+			if f.Br.IsCase {
+				continue
+			}
+			p, eqNil, ok := nilAtom(f.Br.Cond)
+			if !ok {
+				continue
+			}
+			nTests++
+			if eqNil != f.Val {
+				continue // this edge establishes non-nil
+			}
+			killed := false
+			for _, nd := range g.DominatedNodes(f.Br.B, f.Edge) {
+				if killed {
+					break
+				}
+				for _, d := range derefs(nd, p) {
+					if !assigned(nd, p) {
+						c.Violate(R, keyf("%s/deref(%s)-on-nil-edge", u.Key, p), d.Pos(), keyf("%s is dereferenced on the edge where the test has established that it is nil", p))
+					}
+				}
+				if assigned(nd, p) {
+					killed = true
+				}
+			}
+		}
+	}
+	c.Need(R, "nil tests examined", nTests, 60)
+	c.Check(R, "repo/no-deref-on-nil-edge", token.NoPos, true, keyf("%d nil-test edges examined", nTests))
+}
+
+// c09CloseOnce — C09.9: closing a closed channel panics; the request context's
+// done channel is closed by whichever comes first, the response write or the
+// watcher that sees the client go away.
+func c09CloseOnce(c *core.Ctx) {
+	const R = "C09.9"
+	c.Rule(R, "close-once: every close(ch) of a channel held in a struct field (engine, transports, types, utils, webtransport) is dominated by the success edge of a CompareAndSwap on an atomic flag of the same object, or runs inside sync.Once.Do, or is the frozen site Timer.Unref's unreachable-object cleanup (runs at most once per object); HttpContext.done is closed only by Flush — the response write and the request-context watcher both go through it, so a client that drops its connection during a write cannot make the second close panic on the send goroutine")
+	pkgs := map[string]bool{"engine": true, "transports": true, "types": true, "utils": true, "webtransport": true, "events": true}
+	n := 0
+	for _, u := range c.P.Units {
+		if u.Pkg == nil || u.Pkg.Types == nil || !pkgs[u.Pkg.Types.Name()] {
+			continue
+		}
+		info := u.Info()
+		g := u.Graph()
+		for _, cl := range u.Calls() {
+			if cl.Callee != nil || cl.Name != "close" || len(cl.Expr.Args) != 1 {
+				continue
+			}
+			if id, ok := ast.Unparen(cl.Expr.Fun).(*ast.Ident); !ok {
+				continue
+			} else if _, isB := info.Uses[id].(*types.Builtin); !isB {
+				continue
+			}
+			f := fieldOf(info, cl.Expr.Args[0])
+			if f == "" {
+				continue
+			}
+			n++
+			casWon := func(x *core.Unit, br core.Branch) int {
+				if br.IsCase {
+					return 0
+				}
+				if ce, key := x.AsCall(br.Cond); ce != nil && strings.HasSuffix(key, ".CompareAndSwap") {
+					return 1
+				}
+				return 0
+			}
+			ok := g.GuardedBy(cl.Loc, casWon)
+			if !ok && u.Parent != nil {
+				for _, d := range u.Parent.CallsTo("sync.(*Once).Do") {
+					if closureArg(u.Parent, d, 0) == u {
+						ok = true
+					}
+				}
+				for _, d := range u.Parent.CallsTo("runtime.AddCleanup") {
+					if closureArg(u.Parent, d, 1) == u && u.Parent.Key == "utils.(*Timer).Unref" {
+						ok = true
+					}
+				}
+			}
+			if f == "HttpContext.done" {
+				ok = ok && u.Key == "types.(*HttpContext).Flush"
+			}
+			c.Check(R, keyf("%s/close(%s)", u.Key, f), cl.Pos(), ok, "the channel is closed at most once (guarded by a won CompareAndSwap / sync.Once / the per-object cleanup)")
+		}
+	}
+	c.Need(R, "close(field channel) sites", n, 2)
 }
